@@ -99,7 +99,7 @@ def scenarios_from_sched(rows, tick_ms=40, deadline_ms=3000, always_empty=True):
     return [seen[k] for k in sorted(seen)]
 
 
-def run_scenarios(ck, scenarios, tag, nproc=8, timeout=1500):
+def run_scenarios(ck, scenarios, tag, nproc=8, timeout=1500, sub="run"):
     """Run the scenarios in `nproc` harness processes; returns outcome records in scenario order."""
     inp = os.path.join(ck.dir, f"scen_{tag}.ndjson")
     vlib.write_ndjson(inp, scenarios)
@@ -109,7 +109,7 @@ def run_scenarios(ck, scenarios, tag, nproc=8, timeout=1500):
     env["VERIF_SEED"] = str(vlib.seed())
     for i in range(nproc):
         out = os.path.join(ck.dir, f"out_{tag}_{i}.ndjson")
-        p = subprocess.Popen([vlib.bin_path("dtlshs"), "run", inp, out, f"{i}/{nproc}"], cwd=vlib.ROOT, env=env,
+        p = subprocess.Popen([vlib.bin_path("dtlshs"), sub, inp, out, f"{i}/{nproc}"], cwd=vlib.ROOT, env=env,
                              stdout=subprocess.DEVNULL, stderr=subprocess.PIPE, text=True)
         procs.append((p, out))
     t0 = time.time()
